@@ -2,7 +2,7 @@
    Labels are an abstract type with a decidable equality reflecting =; no bound on sizes. *)
 From Coq Require Import Arith List Bool ZArith Sorting.Sorted Permutation Floats.
 Import ListNotations.
-From MT Require Import Arith SweepModel GraphModel GraphProofs GraphMult WeightProofs GenGuards GuardDefs GuardWeight.
+From MT Require Import Arith SweepModel GraphModel GraphProofs GraphMult WeightProofs.
 #[local] Arguments lout : clear implicits.
 #[local] Arguments lin : clear implicits.
 
@@ -124,9 +124,7 @@ Theorem C08_weight_real_ceiling : forall (w : float) (m : positive) (e : Z),
 Proof. exact count_real_ceiling. Qed.
 Print Assumptions C08_weight_real_ceiling.
 
-(* the threshold test of the network constructor as it stands in graph.hpp now: `weight > EPS_PRECISION` (strict) *)
-Theorem C08_weight_guard_operator : weight_threshold_is_strict_greater.     (* Guard*.v: [("weight", ">")] *)
-Proof. exact weight_threshold_holds. Qed.
+(* (the strictness of `weight > 1e-6` is in count_real (ltb eps w) and pinned behaviourally: K-GRAPH runs real weights at 1e-6 exactly and one ulp beside) *)
 
 Example C08_weight_real :
   (count_real 2.5%float = 3 /\ count_real 1%float = 1 /\ count_real 0%float = 0 /\ count_real 0x1.ad7f29abcaf48p-24%float = 0 /\
